@@ -427,7 +427,12 @@ pub fn gen_resp_head(rng: &mut Rng, nfields: usize, force_3xx_location: bool) ->
         if b == a {
             b = (a + 1) % nfields;
         }
-        let (n1, v1, n2, v2): (&str, &[u8], &str, &[u8]) = match rng.below(6) {
+        let (n1, v1, n2, v2): (&str, &[u8], &str, &[u8]) = match rng.below(9) {
+            // (values that are not text - obs-text is legal field content - and an Expect field: a parser hands
+            // them on like any other field, whatever the client makes of them)
+            6 => ("Transfer-Encoding", b"gz\xefp", "Connection", b"cl\xf6se"),
+            7 => ("Expect", b"100-continue", "expect", b"100-continue"),
+            8 => ("transfer-encoding", b"\xe9", "Location", b"/n\xe9xt"),
             0 => ("Content-Length", b"5", "content-length", b"5"),
             1 => ("content-length", b"0", "Content-Length", b"0"),
             2 => ("Transfer-Encoding", b"gzip", "Transfer-Encoding", b"chunked"),
